@@ -15,6 +15,7 @@ import (
 
 	"verif/lib/vlib"
 	"verif/mon/chainsim"
+	"verif/mon/forksmon"
 	"verif/ref/refchain"
 )
 
@@ -1146,6 +1147,12 @@ func Main(prop string) {
 				iso[n] = true
 			}
 		}
+		if strings.HasPrefix(os.Args[4], "trees:") {
+			// block trees whose side branches carry header/structure/commitment violators and
+			// CVE-2012-2459 twins: a violator that is merely *stored* must never get connected later
+			forksmon.ChildFor(prop, seed, os.Args[3], strings.TrimPrefix(os.Args[4], "trees:"), os.Args[5], 5)
+			return
+		}
 		Child(prop, seed, os.Args[3], os.Args[4], os.Args[5], iso, os.Getenv("VERIF_ONLY"))
 		return
 	}
@@ -1183,6 +1190,13 @@ func Main(prop string) {
 				continue
 			}
 			jobs = append(jobs, job{c, run.Seed*1000 + int64(i), ""})
+		}
+	}
+	{
+		for i := 0; i < run.N(3, 40); i++ {
+			for _, fc := range forksmon.Configs() {
+				jobs = append(jobs, job{Config{Name: "trees:" + fc.Name}, run.Seed*1000 + 700 + int64(i), ""})
+			}
 		}
 	}
 	vlib.Parallel(len(jobs), 8, func(i int) {
